@@ -19,6 +19,10 @@ FORMS = ['kv_int', 'kv_name', 'mapping_int', 'mapping_name', 'kwargs', 'kwargs',
 GRADED_FORMS = ['kv_int', 'kv_name', 'mapping_int', 'kwargs', 'grades_list', 'full', 'helper', 'bad_graded_incomplete', 'bad_length', 'bad_grades']
 
 
+# value types of the supplied coefficients (the integer tag is embedded in / recovered from a value of that type)
+VTYPES = ['int', 'int', 'int', 'float', 'frac', 'npfloat', 'sympyint', 'symbol', 'str', 'array']
+
+
 def run(ctx):
     rng, q = ctx.rng, ctx.quick
     r = ctx.mc('mc/MC_Algebra.tla', 'mc/MC_Algebra_quick.cfg' if q else 'mc/MC_Algebra_thorough.cfg',
@@ -47,7 +51,7 @@ def run(ctx):
     os.makedirs(tdir, exist_ok=True)
     for i, u in enumerate(us):
         n = 40 if q else 150
-        jobs.append({'u': u, 'opts': {}, 'forms': FORMS, 'n': n, 'seed': ctx.seed + i, 'out': os.path.join(tdir, f'c{i}.ndjson'), 'prefix': f'c{i}'})
+        jobs.append({'u': u, 'opts': {}, 'forms': FORMS, 'n': n, 'seed': ctx.seed + i, 'out': os.path.join(tdir, f'c{i}.ndjson'), 'prefix': f'c{i}', 'vtypes': VTYPES})
         if i % 3 == 0:
             jobs.append({'u': u, 'opts': {'graded': True}, 'forms': GRADED_FORMS, 'n': n // 2, 'seed': ctx.seed + 1000 + i,
                          'out': os.path.join(tdir, f'g{i}.ndjson'), 'prefix': f'g{i}'})
